@@ -17,3 +17,11 @@ def register(check, na):
         "Trusts harness/flt.py and the meaning of mpmath's _mpf_ tuple; mpf contexts narrower than the float's precision are outside the domain.",
         "DESIGN.md 2/C13",
     )
+
+    check(
+        "C15",
+        "Hypothesis-generated multiprecision values and backend option combinations against exact round-to-nearest-even in rational arithmetic",
+        "mpf2float is driven with generated mantissas (p..200 bits: random, exact ties, ties +-1, all-ones) at generated exponents with extra mass on the overflow edge, the normal/subnormal edge and half the smallest subnormal, and compared with exact RN; the backend plumbing is driven over flush_subnormals x extra_prec x extra_prec_multiplier x scalar/array/complex with functions whose exact value is rational (identity, negation, x/2, x*x) or decided by integer square root. Exploration (generated cases, shrunk on failure).",
+        "Trusts harness/flt.py RN; double rounding within 2^-(extra-1) ulp of a midpoint is accepted when extra working precision is requested; nothing is claimed for subnormal results of mpf2float.",
+        "DESIGN.md 2/C15",
+    )
